@@ -120,6 +120,21 @@ def generate(sess):
                     ("secretshare", shares[0]), ("keypackage", kps[i]), ("nonces", nonces)]
             if d.ok:
                 vals += [("dkg1secret", d.sp1[i]), ("dkg2secret", d.sp2[i]), ("dkg2package", d.r2[i][ids[1]]), ("keypackage", d.kp[i])]
+            # protocol steps that CONSUME the round-one secret package (key generation and distributed refresh part 2):
+            # while the step runs, no freed block may still hold one of the package's secret coefficients
+            if suite not in TOY_SUITES:
+                for via, run in (("dkg2", d), ("refresh_dkg2", Dkg(sess, suite, n, t, ids, refresh=True).part1())):
+                    if not run.ok:
+                        continue
+                    req = "consumescan %s via=%s sp=%s r1=%s" % (suite, via, run.sp1[i], r1_str(run.pkg1, i))
+                    r = sess.call(req, NONE, "consumescan:" + via, model=False)
+                    if sess.oracle(r.ok and r["step"] == "ok", "consumescan harness call failed (%s)" % r.raw[:80], [req]):
+                        sess.oracle(int(r["control_hook"]) >= 1 and int(r["patterns"]) >= 1 and int(r["owned_blocks"]) >= 1, "control failed: the allocator wrapper did not see the secret bytes in a plain freed buffer, or found no heap block owned by the package (%s)" % r.raw, [req])
+                        if int(r["found_elsewhere"]):
+                            sess.count("observation: %s leaves copies of the coefficients in freed temporaries (outside the property: not the package's own storage)" % via)
+                        sess.oracle(int(r["found"]) == 0, "%s consumed a round-one secret package and freed the package's own heap storage with %s copy(ies) of its secret coefficients still in it (%s)" % (via, r["found"], r.raw), [req], key="consume:" + via)
+                    sess.case("consume|" + req, sample={"suite": suite, "type": "dkg1secret consumed by " + via, "observation": r.raw})
+                    sess.count("consume:" + via)
             # extreme scalars: all-ones-ish (q-1), one
             vals += [("signingshare", fld.enc(fld.q - 1)), ("signingkey", fld.enc(1)), ("dkg2package", fld.enc(fld.q - 1))]
             for t_, v in vals:
